@@ -15,10 +15,12 @@ pub mod c14;
 pub mod c15;
 pub mod c16;
 pub mod common;
+pub mod prog;
 
 pub fn by_id(id: &str) -> Option<Box<dyn Property>> {
     match id {
         "C01" => Some(Box::new(c01::C01)),
+        "C02" => Some(Box::new(prog::ProgProp { id: "C02", deser: crate::progrun::Deser::QuickXml })),
         "C03" => Some(Box::new(c03::C03)),
         "C04" => Some(Box::new(c04::C04)),
         "C05" => Some(Box::new(c05::C05)),
@@ -29,6 +31,7 @@ pub fn by_id(id: &str) -> Option<Box<dyn Property>> {
         "C10" => Some(Box::new(c10::C10)),
         "C11" => Some(Box::new(c11::C11)),
         "C12" => Some(Box::new(c12::C12)),
+        "C13" => Some(Box::new(prog::ProgProp { id: "C13", deser: crate::progrun::Deser::SerdeXmlRs })),
         "C14" => Some(Box::new(c14::C14)),
         "C15" => Some(Box::new(c15::C15)),
         "C16" => Some(Box::new(c16::C16)),
